@@ -545,6 +545,10 @@ func (a *IPAllocator) SetAllocation(subscriberID string, prefix *net.IPNet) erro
 
 	// Clear any existing allocation for this subscriber
 	if oldIdx, exists := a.allocated[subscriberID]; exists {
+		if oldIdx == idx {
+			// Re-applying the record the subscriber already holds changes nothing
+			return nil
+		}
 		if oldIdx != idx {
 			a.bitmap.SetBit(a.bitmap, int(oldIdx), 0)
 			delete(a.indexToSubscriber, oldIdx)
